@@ -180,7 +180,7 @@ func validFlvTagBody(t *rapid.T) []byte {
 }
 
 func validWsFrames(t *rapid.T, server bool) []byte {
-	cfg := byte(rapid.IntRange(0, 7).Draw(t, "wscfg"))
+	cfg := byte(rapid.IntRange(0, 15).Draw(t, "wscfg"))
 	out := []byte{cfg}
 	n := rapid.IntRange(1, 8).Draw(t, "nframes")
 	open := false
